@@ -69,11 +69,12 @@ META = {
 }
 
 def main():
+    BUILT = set(open(os.path.join(ROOT, "tools", "built.txt")).read().split())
     checks, na = [], []
     for pid in sorted(MODULES):
         mod = os.path.join(ROOT, "vf", "props", MODULES[pid] + ".py")
         cat, tech, text, note, ref = META[pid]
-        if os.path.isfile(mod):
+        if os.path.isfile(mod) and pid in BUILT:
             checks.append({
                 "property_id": pid,
                 "quick_cmd": "./check %s --tier quick" % pid,
